@@ -3395,3 +3395,83 @@ mod tests {
         let _ = proxy.finish().await;
     }
 }
+
+/// Verification hook: drives the private `ResponseHandlerMap` with opaque
+/// handler tokens (request ids), so that histories of allocate / orphan /
+/// lookup / into_handlers can be explored against a reference model.
+#[cfg(scylla_verif)]
+pub(crate) mod verif_hooks {
+    use super::{HandlerLookupResult, RequestId, ResponseHandler, ResponseHandlerMap};
+    use tokio::sync::oneshot;
+
+    /// What `lookup` of a stream id reported.
+    #[derive(Debug, Clone, Copy, PartialEq, Eq)]
+    pub enum VerifLookup {
+        /// A live handler was found; carries the request id it was allocated for.
+        Handler(u64),
+        /// The stream had been orphaned.
+        Orphaned,
+        /// Nobody was waiting on the stream.
+        Missing,
+    }
+
+    /// Wrapper over the connection's stream-id / handler bookkeeping.
+    pub struct VerifHandlerMap {
+        inner: ResponseHandlerMap,
+    }
+
+    impl Default for VerifHandlerMap {
+        fn default() -> Self {
+            Self::new()
+        }
+    }
+
+    impl VerifHandlerMap {
+        /// Creates an empty map, as a fresh connection has.
+        pub fn new() -> Self {
+            Self {
+                inner: ResponseHandlerMap::new(),
+            }
+        }
+
+        /// Registers a handler for `request_id`, returning its stream id,
+        /// or `Err(())` if no stream id is free.
+        #[allow(clippy::result_unit_err)]
+        pub fn allocate(&mut self, request_id: u64) -> Result<i16, ()> {
+            let (response_sender, _receiver) = oneshot::channel();
+            let handler = ResponseHandler {
+                response_sender,
+                request_id: request_id as RequestId,
+            };
+            self.inner.allocate(handler).map_err(|_| ())
+        }
+
+        /// Delivers an orphanhood notification for `request_id`.
+        pub fn orphan(&mut self, request_id: u64) {
+            self.inner.orphan(request_id as RequestId)
+        }
+
+        /// A response frame with `stream_id` arrived.
+        pub fn lookup(&mut self, stream_id: i16) -> VerifLookup {
+            match self.inner.lookup(stream_id) {
+                HandlerLookupResult::Handler(h) => VerifLookup::Handler(h.request_id),
+                HandlerLookupResult::Orphaned => VerifLookup::Orphaned,
+                HandlerLookupResult::Missing => VerifLookup::Missing,
+            }
+        }
+
+        /// Number of orphaned streams older than the old-age threshold.
+        pub fn old_orphans_count(&self) -> usize {
+            self.inner.old_orphans_count()
+        }
+
+        /// The connection broke: returns (stream id, request id) of every live handler.
+        pub fn into_handlers(self) -> Vec<(i16, u64)> {
+            self.inner
+                .into_handlers()
+                .into_iter()
+                .map(|(s, h)| (s, h.request_id))
+                .collect()
+        }
+    }
+}
